@@ -201,6 +201,7 @@ func VerifH_C09_L2_crash() {
 		}
 		p.te.Cache = keep
 		mark := len(p.created)
+		fin1 := p.out.Status.Condition.Finished
 		// (two more passes: the pass that notices the disappearance, and the one after it)
 		for k := 0; k < 2; k++ {
 			p.j.rj = p.out
@@ -209,6 +210,12 @@ func VerifH_C09_L2_crash() {
 			}
 			vz.Cover("second-pass-after-success-vanished")
 			vz.Assert(len(p.created) == mark, "C08/L2/no-create-after-observed-success")
+			// a Job that was Finished stays Finished with the same result when its tasks disappear
+			if fin1 != nil {
+				fin := p.out.Status.Condition.Finished
+				vz.Assert(fin != nil && fin.Result == fin1.Result, "C11/L2/finished-result-survives-task-disappearance")
+				vz.Cover("finished-then-tasks-vanish")
+			}
 		}
 	}
 }
